@@ -164,6 +164,21 @@ CasesC03(lazy) ==
               <<"a.b." \o ExtAt(2, rot), "c.d." \o ExtAt(4, rot)>>, sk, "/", "inputs",
               IF sk THEN Chains(<< <<"a.b">>, <<"c.d">> >>) ELSE Chains(<< <<"a", "a.b">>, <<"c", "c.d">> >>))
          : rot \in {0, 1}, sk \in BOOLEAN }
+  (* a $match in a layer looks among the layer's OWN ancestors first: a document of another input, or of *)
+  (* another branch of a $parent list, that matches the same pattern is not touched                       *)
+  \cup { Case(FsOf(<< <<"one", "yaml", <<LayerDoc("one", [k \in {"kind"} |-> S("D")])>> >>,
+                      <<"one.prod", "json", <<LayerDoc("one.prod", [k \in {"$match"} |-> pt])>> >>,
+                      <<"two", "toml", <<LayerDoc("two", [k \in {"kind"} |-> S("D")])>> >>,
+                      <<"two.prod", "yaml", <<LayerDoc("two.prod", [k \in {"$match"} |-> pt])>> >> >>, <<>>),
+              inp, FALSE, "/", "matchown", exp)
+         : pt \in {Single("kind", S("D")), EmptyMap}, <<inp, exp>> \in { << <<"one.prod.json", "two.prod.yaml">>, Chains(<< <<"one", "one.prod">>, <<"two", "two.prod">> >>) >>,
+                              << <<"two.prod.yaml", "one.prod.json">>, Chains(<< <<"two", "two.prod">>, <<"one", "one.prod">> >>) >>,
+                              << <<"one.yaml", "two.prod.yaml">>, Chains(<< <<"one">>, <<"two", "two.prod">> >>) >> } }
+  \cup { Case(FsOf(<< <<"app", "yaml", <<LayerDoc("app", [k \in {"kind"} |-> S("D")])>> >>,
+                      <<"app.one", "yaml", <<LayerDoc("app.one", [k \in {"$match"} |-> pt])>> >>,
+                      <<"app.two", "yaml", <<LayerDoc("app.two", [k \in {"$match"} |-> pt])>> >>,
+                      <<"all", "yaml", <<LayerDoc("all", [pk \in {"$parent"} |-> S("app.*")])>> >> >>, <<>>),
+              <<"all.yaml">>, FALSE, "/", "matchown", Chains(<< <<"app", "app.one", "all">>, <<"app", "app.two", "all">> >>)) : pt \in {Single("kind", S("D")), EmptyMap} }
   (* -P ignores inheritance altogether, $parent included *)
   \cup { Case(FsOf(<<Plain("a", 0, 1), WithParent("a.b", 0, 2, pv)>>, <<>>), <<"a.b.json">>, TRUE, "/", "skipparent",
               Chains(<< <<"a.b">> >>)) : pv \in {S("a"), False, S("nope"), L(<<S("a")>>)} }
